@@ -11,6 +11,7 @@
 #include <set>
 
 #include "C13_radix_impl.hpp"
+#include "C13_radix_types_impl.hpp"
 
 namespace {
 
@@ -18,7 +19,9 @@ using c13::IRadix;
 using c13::RV;
 typedef uint64_t UK;
 
-void radix_history(pbt::Source& src, IRadix& h, unsigned BITS, unsigned RBITS, bool is_signed) {
+//! ext (target radix_types): payload identities may repeat (copies of the top element are inserted), two more
+//! operations are drawn; the existing target calls with ext = false and keeps its byte -> history mapping
+void radix_history(pbt::Source& src, IRadix& h, unsigned BITS, unsigned RBITS, bool is_signed, bool ext = false) {
     const UK RMAX = BITS == 64 ? ~(UK)0 : (((UK)1 << BITS) - 1);
     const UK ZERO = is_signed ? (UK)1 << (BITS - 1) : 0; // rank of key 0
     const int IMIN = std::numeric_limits<int>::min(), IMAX = std::numeric_limits<int>::max();
@@ -124,7 +127,7 @@ void radix_history(pbt::Source& src, IRadix& h, unsigned BITS, unsigned RBITS, b
     check("construction");
     while (src.more() && nops < 200) {
         ++nops;
-        unsigned op = (unsigned)src.weighted({7, 2, 2, 2, 4, 5, 2, 1, 1});
+        unsigned op = ext ? (unsigned)src.weighted({7, 2, 2, 2, 4, 5, 2, 1, 1, 5, 2}) : (unsigned)src.weighted({7, 2, 2, 2, 4, 5, 2, 1, 1});
         switch (op) {
         case 0:
         case 1:
@@ -149,9 +152,33 @@ void radix_history(pbt::Source& src, IRadix& h, unsigned BITS, unsigned RBITS, b
             RV t = h.top();
             PBT_LOG("top() -> {" << h.show(t.first) << "," << t.second << "}\n");
             PBT_CHECK(t.first == m, "C13/radix-top", "top() has key " << h.show(t.first) << " but the minimum key is " << h.show(m));
-            PBT_CHECK(live.count(t) == 1, "C13/radix-payload", "top() returned {" << h.show(t.first) << "," << t.second << "} which is not a stored element");
+            PBT_CHECK(ext ? live.count(t) >= 1 : live.count(t) == 1, "C13/radix-payload", "top() returned {" << h.show(t.first) << "," << t.second << "} which is not a stored element");
             observe_min(m);
             pbt::label("top");
+            break;
+        }
+        case 9: {
+            // ext: h.push(h.top()) and its relatives: the argument is a reference to an element inside the heap
+            if (!msize()) continue;
+            static const char* const HOW[] = {"push(top())", "push_to_bucket(get_bucket(top()), top())", "emplace_in_bucket(get_bucket(top()), top())", "emplace(key, top())"};
+            static const char* const HL[] = {"alias_push", "alias_push_to_bucket", "alias_emplace_in_bucket", "alias_emplace"};
+            unsigned how = (unsigned)src.range(0, 3);
+            UK m = model_min();
+            RV t = h.insert_top(how);
+            PBT_LOG(HOW[how] << " [top {" << h.show(t.first) << "," << t.second << "}]\n");
+            PBT_CHECK(t.first == m, "C13/radix-top", "top() has key " << h.show(t.first) << " but the minimum key is " << h.show(m));
+            PBT_CHECK(live.count(t) >= 1, "C13/radix-payload", "top() returned {" << h.show(t.first) << "," << t.second << "} which is not a stored element");
+            observe_min(m);
+            live.insert(t);
+            pbt::label(HL[how]);
+            break;
+        }
+        case 10: {
+            static const char* const LL[] = {"life_independent_copy", "life_self_assign", "life_swap", "life_reuse_after_move"};
+            unsigned how = (unsigned)src.range(0, 3);
+            PBT_LOG(LL[how] << "\n");
+            h.copy_move(3 + how);
+            pbt::label(LL[how]);
             break;
         }
         case 5: {
@@ -211,7 +238,7 @@ void radix_history(pbt::Source& src, IRadix& h, unsigned BITS, unsigned RBITS, b
         } else {
             RV t = h.top();
             PBT_CHECK(t.first == m, "C13/radix-drain", "drain: top() has key " << h.show(t.first) << " but the minimum key is " << h.show(m));
-            PBT_CHECK(live.count(t) == 1, "C13/radix-payload", "drain: top() returned {" << h.show(t.first) << "," << t.second << "} which is not stored");
+            PBT_CHECK(ext ? live.count(t) >= 1 : live.count(t) == 1, "C13/radix-payload", "drain: top() returned {" << h.show(t.first) << "," << t.second << "} which is not stored");
             h.pop();
             ++unknown[m], ++n_unknown;
         }
@@ -246,4 +273,29 @@ PBT_PROPERTY(radix) {
     }
     PBT_LOG("RadixHeapPair<" << (KL[ksel] + 4) << "_t, int, " << (1u << RB[rsel]) << ">\n");
     radix_history(src, *h, bits, RB[rsel], is_signed);
+}
+
+// payload types that own memory (std::string / record with string + Tracked, key extractor owning a std::function),
+// aliasing inserts of the heap's own top element, reuse of the exchange bucket, more copy/move/swap round trips
+PBT_PROPERTY(radix_types) {
+    verif::Ledger::get().reset();
+    unsigned cfg = (unsigned)src.range(0, 7);
+    static const unsigned BITS[8] = {16, 32, 64, 8, 16, 32, 64, 8};
+    static const unsigned RBITS[8] = {1, 3, 6, 2, 4, 5, 3, 1};
+    static const bool SIGNED[8] = {true, false, true, false, false, true, false, true};
+    static const char* const CL[8] = {"cfg=int16/2/pair-string",  "cfg=uint32/8/pair-string", "cfg=int64/64/pair-string", "cfg=uint8/4/pair-string",
+                                      "cfg=uint16/16/record",     "cfg=int32/32/record",      "cfg=uint64/8/record",      "cfg=int8/2/record"};
+    // a listed (unrepaired) finding about keys narrower than int can be excluded by construction
+    if (BITS[cfg] < 32 && pbt::excluded("radix-narrow-keys")) cfg = cfg < 4 ? 1 + cfg % 2 : 5 + cfg % 2;
+    pbt::label(CL[cfg]);
+    PBT_LOG("radix_types " << CL[cfg] << "\n");
+    try {
+        std::unique_ptr<IRadix> h(cfg < 4 ? c13::make_radix_types_a(cfg) : c13::make_radix_types_b(cfg));
+        radix_history(src, *h, BITS[cfg], RBITS[cfg], SIGNED[cfg], true);
+    } catch (const pbt::Failure&) {
+        throw;
+    } catch (const std::exception& e) {
+        pbt::fail("C13/exception", std::string("the heap operation threw ") + e.what() + " (std::bad_function_call = an empty, i.e. moved-from, key extractor was called)");
+    }
+    PBT_CHECK(verif::Ledger::get().live_count() == 0, "C13/lifetime", "payloads still alive after the heap and all copies were destroyed: " << verif::Ledger::get().live_count());
 }
